@@ -377,12 +377,72 @@ def _gain_unc_case(ctx, it):
         )
 
 
+def _perm_ref_cases(ctx, scale):
+    """Channel permutations with SEVERAL reference channels: "reference indices mapped consistently" produces index lists of
+    every order - descending, descending with a constant stride, interleaved - none of which is special to the property.
+    Small records, all three single-setup SSI variants."""
+    rng = ctx.rng
+    kinds = ["SSIcov", "SSIcovR", "SSIdat"]
+    for it in range(ctx.n(12, 60) * scale):
+        kind = kinds[it % 3]
+        nch = rng.randint(3, 6)
+        fs = rng.choice([20.0, 50.0])
+        y = _signal(ctx, nch, rng.randint(900, 1400), fs, nmodes=rng.randint(1, 2))
+        r = rng.randint(2, nch)
+        form = ["descending", "descending-stride", "ascending", "random"][(it // 3) % 4]
+        # the reference list AFTER the permutation has the chosen form; the list before is any ordered subset
+        if form == "descending":
+            a = rng.randint(r - 1, nch - 1)
+            after = list(range(a, a - r, -1))
+        elif form == "descending-stride" and 2 * (r - 1) <= nch - 1:
+            a = rng.randint(2 * (r - 1), nch - 1)
+            after = list(range(a, a - 2 * r, -2))
+        elif form == "ascending":
+            after = sorted(rng.sample(range(nch), r))
+        else:
+            after = rng.sample(range(nch), r)
+        before = rng.sample(range(nch), r)
+        # perm: new channel j = old channel perm[j]; reference before[k] must land at position after[k]
+        rest_old = [c for c in range(nch) if c not in before]
+        rng.shuffle(rest_old)
+        perm = [None] * nch
+        for b, a_ in zip(before, after):
+            perm[a_] = b
+        it_rest = iter(rest_old)
+        perm = [next(it_rest) if v is None else v for v in perm]
+        br = rng.randint(4, 7)
+        p = dict(nxseg=128, sd="per", pov=0.5, br=br, ordmax=min(rng.randint(4, 8), (br + 1) * r, br * nch), pl_ord=4, ref=list(before))
+        p2 = dict(p, ref=[perm.index(b) for b in before])
+        assert p2["ref"] == after
+        inp = {"class": kind, "transformation": "perm", "fs": fs, "params": dict(p), "t": {"perm": perm, "ref_after": after, "form": form},
+               "case": f"seed{ctx.seed}#permref{it}"}
+        try:
+            base = _run(kind, y, fs, p, [])
+        except Exception as e:  # noqa: BLE001
+            ctx.skipped += 1
+            ctx.count(f"base_failed_{kind}_{type(e).__name__}")
+            continue
+        try:
+            new = _run(kind, y[:, perm], fs, p2, [])
+        except Exception as e:  # noqa: BLE001
+            ctx.oracle_cases += 1
+            ctx.violation(f"{kind}:perm:transformed-run-fails", f"{kind}: run on channel-permuted data with references {after} raises {type(e).__name__}: {str(e)[:100]} while the original run (references {before}) succeeds", inp)
+            return
+        ctx.count(f"cases_perm_refs_{form}")
+        ctx.nontrivial.add((kind, "perm-refs", form, r))
+        if not _cmp_tables(ctx, base["tables"], new["tables"], 1.0, (lambda v, perm=perm: np.asarray(v)[perm]), f"{kind}:perm", inp, fs):
+            return
+
+
 def oracle(ctx, scale):
     rng = ctx.rng
     for it in range(ctx.n(3, 20) * scale):
         _gain_unc_case(ctx, it)
         if ctx.violations:
             return
+    _perm_ref_cases(ctx, scale)
+    if ctx.violations:
+        return
     n = ctx.n(5, 25) * scale
     for it in range(n):
         for kind in SINGLE:
